@@ -570,6 +570,8 @@ String File::getRelativePath(const String& from, const String& to)
   String simTo = simplifyPath(to);
   if(simFrom == simTo)
     return String(".");
+  if(simFrom.isEmpty()) // from is the directory the relative paths start at
+    return simTo;
   if(!simFrom.endsWith("/"))
     simFrom.append('/');
   if(String::compare((const char*)simTo, (const char*)simFrom, simFrom.length()) == 0)
